@@ -543,7 +543,11 @@ func (e *sqlEngine) step(st map[string]any) common.Result {
 	case "TakeFinal":
 		return e.advanceGC("finalMark", false)
 	case "ToNoGC", "FinishCancel":
+		deadline := time.Now().Add(stepTimeout)
 		for {
+			if time.Now().After(deadline) {
+				return e.fail("timeout: call dolt_gc() did not return", "returned", "at "+e.g.At("gc"))
+			}
 			if at := e.g.At("gc"); at != "" {
 				e.g.Release("gc")
 			}
